@@ -3,7 +3,14 @@ package c13
 // File-based loading under the scheduler (second clause of C13: "a lazily file-loaded definition is instantiated exactly
 // once").
 //
-//   C13 files (files xN*) (threads (th STEP*) …) (sched T*)      STEP ::= (load xN) | (loadp xN)
+//   C13 files (files FILE*) (threads (th STEP*) …) (sched T*)    STEP ::= (load xN) | (loadp xN)
+//                                                                FILE ::= xN | (bad xN) | (mis xN)
+//
+// FILE: xN = types/<n>.pp holds `type <N> = Integer[i,i]`; (bad xN) = the file does not parse (`type <N> = Integer[`: the
+// instantiator raises PARSE_ERROR); (mis xN) = the file defines another name (`type Zz<N> = Integer[i,i]`: the instantiator
+// raises PCORE_WRONG_DEFINITION).  A raising instantiator still reads the file (once); the panic unwinds through
+// fileBasedLoader.instantiate (the deferred function releases the name mutex), the lookup re-raises, and the placeholder
+// STAYS installed: every later lookup of that name answers not-found and the file is never read again.
 //
 // (load xN) looks N up through the file-based loader, (loadp xN) through its PARENT (a plain parented loader: the lookup
 // misses and leaves a miss marker there, which must not hide the file from a later lookup through the file-based loader).
@@ -52,13 +59,35 @@ func execFiles(args []sx.Sexp) core.Result {
 	}
 	var files []string
 	index := map[string]int{}
+	raises := map[string]string{} // the issue code a file's instantiator raises
+	desc := ""
 	for _, f := range args[0].Args() {
+		code := ""
+		if f.IsList {
+			if len(f.Args()) != 1 {
+				return core.Result{Out: "bad-op", Pred: "n/a"}
+			}
+			switch f.Tag() {
+			case "bad":
+				code = "PARSE_ERROR"
+			case "mis":
+				code = "PCORE_WRONG_DEFINITION"
+			default:
+				return core.Result{Out: "bad-op", Pred: "n/a"}
+			}
+			f = f.Args()[0]
+		}
 		n := strings.ToLower(letter(f))
 		if _, dup := index[n]; dup {
 			return core.Result{Out: "bad-op", Pred: "n/a"}
 		}
 		index[n] = len(files) + 1
 		files = append(files, n)
+		desc += n
+		if code != "" {
+			raises[n] = code
+			desc += map[string]string{"PARSE_ERROR": "-bad-", "PCORE_WRONG_DEFINITION": "-mis-"}[code]
+		}
 	}
 	var progs [][]string
 	var viaParent [][]bool
@@ -92,7 +121,7 @@ func execFiles(args []sx.Sexp) core.Result {
 
 	// the directory for this set of files: its content is a function of the names, so it is made once (atomically, per
 	// file) under the system temp directory and shared by every line and every harness process; nothing ever changes it
-	dir := filepath.Join(os.TempDir(), "verif-c13-files-"+strings.Join(files, ""))
+	dir := filepath.Join(os.TempDir(), "verif-c13-files-"+desc)
 	if err := os.MkdirAll(filepath.Join(dir, "types"), 0755); err != nil {
 		panic(err)
 	}
@@ -105,7 +134,14 @@ func execFiles(args []sx.Sexp) core.Result {
 			if err != nil {
 				panic(err)
 			}
-			fmt.Fprintf(tmp, "type %s = Integer[%d,%d]\n", strings.ToUpper(n), i+1, i+1)
+			switch raises[n] {
+			case "PARSE_ERROR":
+				fmt.Fprintf(tmp, "type %s = Integer[\n", strings.ToUpper(n))
+			case "PCORE_WRONG_DEFINITION":
+				fmt.Fprintf(tmp, "type Zz%s = Integer[%d,%d]\n", n, i+1, i+1)
+			default:
+				fmt.Fprintf(tmp, "type %s = Integer[%d,%d]\n", strings.ToUpper(n), i+1, i+1)
+			}
 			tmp.Close()
 			if err := os.Rename(tmp.Name(), p); err != nil {
 				panic(err)
@@ -194,12 +230,43 @@ func execFiles(args []sx.Sexp) core.Result {
 			return fail("instantiated-twice", fmt.Sprintf("the file of %s was read %d times", n, reads[paths[n]]))
 		}
 	}
+	raised := map[string]int{}
+	for t := range progs {
+		for i, o := range outs[t] {
+			n := strings.ToLower(progs[t][i])
+			if code, brk := raises[n]; brk && !viaParent[t][i] && o == "reported "+code {
+				raised[n]++
+			}
+		}
+	}
+	for n, k := range raised {
+		if k > reads[paths[n]] {
+			return fail("raised-without-reading", fmt.Sprintf("%d lookups of %s raised its file's error, the file was read %d times", k, n, reads[paths[n]]))
+		}
+	}
 	for t := range progs {
 		for i, o := range outs[t] {
 			n := strings.ToLower(progs[t][i])
 			idx, has := index[n]
 			if viaParent[t][i] {
 				has = false // the parent binds nothing
+			}
+			if code, brk := raises[n]; brk && has {
+				// a file whose instantiator raises: the one lookup that ran it re-raises; every lookup after that answers
+				// not-found (the placeholder stays); not-found BEFORE anybody ran it is the placeholder seen by another goroutine
+				switch {
+				case o == "reported "+code:
+				case o == "notfound" && reads[paths[n]] >= 1:
+				case o == "notfound" && raced[t][i]:
+					return fail("not-linearizable-placeholder-visible", fmt.Sprintf("thread %d step %d: %s has a file, yet the lookup answered not-found (no sequential order gives that)", t, i, n))
+				case o == "notfound":
+					return fail("file-hidden", fmt.Sprintf("thread %d step %d: the file of %s was never read, yet the lookup through the file-based loader answered not-found", t, i, n))
+				case o == "fault" || strings.HasPrefix(o, "reported"):
+					return fail("crash", fmt.Sprintf("thread %d step %d (load %s) ended in %s, its file raises %s", t, i, progs[t][i], o, code))
+				default:
+					return fail("disagree", fmt.Sprintf("thread %d step %d: load %s answered %s although its file cannot be instantiated", t, i, progs[t][i], o))
+				}
+				continue
 			}
 			want := fmt.Sprintf("found (al %s %d)", sx.Str(strings.ToUpper(n)), idx)
 			switch {
@@ -264,13 +331,47 @@ func genFiles(g *core.G) {
 			}
 		}
 	}
+	// files whose instantiator raises: {a, (bad b)} and {(mis a), b}; two threads with programs of <= 2 loads over the two
+	// names (either letter case for the raising one): every schedule for single loads, <= 2 (thorough 3) switches otherwise
+	for _, fs := range []string{"x61 (bad x62)", "(mis x61) x62", "(bad x61)"} {
+		nm := []string{"x61", "x62", "x42"}
+		var ps [][]string
+		for _, x := range nm {
+			ps = append(ps, []string{x})
+			for _, y := range nm {
+				ps = append(ps, []string{x, y})
+			}
+		}
+		for i, p := range ps {
+			for j, q := range ps {
+				if j < i {
+					continue
+				}
+				emit := func(s []int) { g.Emit("files (files " + fs + ") (threads " + th(p) + " " + th(q) + ") " + schedStr(s)) }
+				switch {
+				case len(p)+len(q) <= 2:
+					interleavings([]int{4 * len(p), 4 * len(q)}, emit)
+				case g.Thorough():
+					bounded([]int{4 * len(p), 4 * len(q)}, 3, emit)
+				default:
+					bounded([]int{4 * len(p), 4 * len(q)}, 2, emit)
+				}
+			}
+		}
+	}
 	// random: files ⊆ {a, b, c}, 2–4 threads × 1–3 loads
 	r := g.Rng
 	all := []string{"x61", "x62", "x63", "x41", "x42", "x64"}
 	for i := 0; i < 1500*g.Scale; i++ {
 		var fs []string
 		for _, f := range []string{"x61", "x62", "x63"} {
-			if r.Intn(3) > 0 {
+			switch r.Intn(8) {
+			case 0, 1:
+			case 2:
+				fs = append(fs, "(bad "+f+")")
+			case 3:
+				fs = append(fs, "(mis "+f+")")
+			default:
 				fs = append(fs, f)
 			}
 		}
@@ -299,7 +400,8 @@ func genFiles(g *core.G) {
 		g.Emit("files (files " + strings.Join(fs, " ") + ") (threads " + strings.Join(ths, " ") + ") " + schedStr(s))
 	}
 	for _, l := range []string{"files (files x6162) (threads (th)) (sched)", "files (files x61 x41) (threads (th)) (sched)",
-		"files (files) (threads (th (load x31))) (sched)", "files (files) (threads) (sched)"} {
+		"files (files) (threads (th (load x31))) (sched)", "files (files) (threads) (sched)", "files (files (bad x61) x41) (threads (th)) (sched)",
+		"files (files (odd x61)) (threads (th)) (sched)", "files (files (bad x61 x62)) (threads (th)) (sched)"} {
 		g.Emit(l)
 	}
 }
